@@ -1,2 +1,100 @@
-(* C08 — concurrent ingest / render / maintenance.  Headline theorems (being filled in). *)
-From Pyro Require Import Model.Base.
+(* C08 — concurrent ingest, render and maintenance: race-free, deadlock-free, atomic reads, no lost update.
+   Headline theorems only.
+
+   FINE model (Model/Conc.v): threads are lists of lock acquisitions / releases (read or write mode, with the
+   writer-pending rule of Go's sync.RWMutex) and accesses of shared locations; the theorems quantify over EVERY
+   schedule (any list of thread indexes) and over ANY multiset of threads taken from the access table of
+   Storage.Put / Storage.Get / Storage.Delete+retention / write-back and eviction tasks / cache savers as they are
+   in /repo after the fix commits ffa16da, 39795c3, 560e1ec, 6f0bdb0, fba57a2 — any number of clients, series,
+   dimensions, trees, addon trees.
+   COARSE model: ingests and renders of one series as called / atomic section / returned; every list of events is
+   a schedule.  The step from the fine to the coarse model ("a section protected by one lock is one step") rests
+   on [C08_segment_sections_exclusive] (proved); the reduction itself is stated, not mechanised.
+   PARTIAL: the Go scheduler and the Go memory model are sampled by the correspondence run (race detector). *)
+From Pyro Require Import Model.Base Model.Conc Proofs.ConcProofs.
+From Coq Require Import Permutation.
+
+(* lockset: every thread of the table makes every access holding that location's lock in the right mode, and
+   therefore no schedule ever reaches a state in which two threads are at conflicting accesses *)
+Theorem C08_lockset : forall ts sched,
+  Forall table_thread ts ->
+  forallb lockset_thread ts = true /\ ~ racing (run_sched sched (init_config ts)).
+Proof. exact storage_threads_lockset. Qed.
+Print Assumptions C08_lockset.
+
+(* generic form: ANY threads that respect the lock order and the lockset discipline never race *)
+Theorem C08_lockset_generic : forall ts sched,
+  forallb ordered_thread ts = true -> forallb lockset_thread ts = true ->
+  ~ racing (run_sched sched (init_config ts)).
+Proof. exact lockset_threads_never_race. Qed.
+Print Assumptions C08_lockset_generic.
+
+(* the access tables before the fixes fail the obligation *)
+Example ex_C08_d9_table_fails_lockset : lockset_thread (get_thread_d9 0 [0; 1] [0; 3]) = false.
+Proof. exact d9_table_fails_lockset. Qed.
+Example ex_C08_unlocked_dimension_save_fails_lockset :
+  lockset_thread (evict_task CDims (save_dimension_unlocked 1)) = false.
+Proof. exact unlocked_dimension_save_fails_lockset. Qed.
+Example ex_C08_unlocked_dimension_save_races :
+  racing (run_sched (repeat 0 19) (init_config [put_thread 0 [0] []; save_dimension_unlocked 0])).
+Proof. exact unlocked_dimension_save_races. Qed.
+
+(* no deadlock: locks are taken in the order putMutex < dimensions cache < segments cache < segment < trees cache
+   < dicts cache < tree / dimension < dict (never two of one rank at once), so no reachable state is stuck *)
+Theorem C08_no_deadlock : forall ts sched,
+  Forall table_thread ts -> stuck (run_sched sched (init_config ts)) = false.
+Proof. exact storage_threads_no_deadlock. Qed.
+Print Assumptions C08_no_deadlock.
+
+Theorem C08_no_deadlock_generic : forall ts sched,
+  forallb ordered_thread ts = true -> stuck (run_sched sched (init_config ts)) = false.
+Proof. exact ordered_threads_never_stuck. Qed.
+Print Assumptions C08_no_deadlock_generic.
+
+(* the table before 560e1ec (Intersection holding the read locks of all its dimensions, in map order) is not
+   ordered and reaches a stuck state: two renders, one ingest, one delete *)
+Example ex_C08_nested_table_not_ordered : ordered_thread (get_thread_nested 0 [0; 1] []) = false.
+Proof. exact nested_table_not_ordered. Qed.
+Example ex_C08_nested_table_deadlocks : stuck (run_sched [0; 1; 0; 1; 2; 3] (init_config dl_threads)) = true.
+Proof. exact nested_table_deadlocks. Qed.
+
+(* mutual exclusion of a segment's write section with every other section of that segment *)
+Theorem C08_segment_sections_exclusive : forall ts sched i j t u s,
+  Forall table_thread ts ->
+  let c := run_sched sched (init_config ts) in
+  i <> j -> nth_error c i = Some t -> nth_error c j = Some u ->
+  holds_w (LSeg s) (ts_held t) = true -> holds (LSeg s) (ts_held u) = false.
+Proof. exact segment_sections_exclusive. Qed.
+Print Assumptions C08_segment_sections_exclusive.
+
+(* atomic read (coarse model, all schedules): a render returns the state after a whole number of ingests — a
+   prefix of the order in which the ingests were applied — containing at least the ingests acknowledged before it
+   was called and at most those called before it returned *)
+Theorem C08_atomic_read : forall evs r S,
+  let s := c_run evs in
+  In (r, S) (r_read s) ->
+  (exists rest, c_applied s = S ++ rest) /\
+  (forall E, In (r, E) (r_started s) -> incl E S) /\
+  (forall T, In (r, T) (r_ended s) -> incl S T).
+Proof. exact atomic_read. Qed.
+Print Assumptions C08_atomic_read.
+
+(* quiescent sum (coarse model, all schedules): once every called ingest has returned, the series holds each of
+   them exactly once — the sequential sum *)
+Theorem C08_quiescent_sum : forall evs w,
+  let s := c_run evs in
+  (forall g, In g (c_started s) -> In g (c_ended s)) ->
+  NoDup (c_applied s) /\ Permutation (c_applied s) (c_started s) /\ sumw w (c_applied s) = sumw w (c_started s).
+Proof. exact quiescent_sum. Qed.
+Print Assumptions C08_quiescent_sum.
+
+Example C08_nonvacuous :
+  let s := c_run [WStart 1; WApply 1; WEnd 1; RStart 7; WStart 2; WApply 2; RRead 7; WStart 3; WEnd 2; REnd 7; WApply 3; WEnd 3] in
+  r_read s = [(7, [1; 2])] /\ r_started s = [(7, [1])] /\ r_ended s = [(7, [3; 2; 1])] /\ c_applied s = [1; 2; 3] /\
+  (forall g, In g (c_started s) -> In g (c_ended s)).
+Proof. exact coarse_nonvacuous. Qed.
+
+(* what Storage.Get did before fba57a2: timeline and tree read in two sections may come from different states *)
+Example ex_C08_two_sections_see_different_states :
+  r_read (c_run two_sections_example) = [(11, [1]); (10, [])].
+Proof. exact two_sections_see_different_states. Qed.
